@@ -68,6 +68,11 @@ Example C10_sharp_empty_id_slot :
   map (fun o => o_consulted o) (run 2 true s0 0 [(0, true); (0, true); (1, false)]) = [[]; []; []].
 Proof. vm_compute. reflexivity. Qed.
 
+(* everything sessions share is the Cache (under its mutex): the package has no package-level variable *)
+Theorem C10_no_package_state : sessionsPackageVars = [].
+Proof. reflexivity. Qed.
+Print Assumptions C10_no_package_state.
+
 (* the response writer, at the level of header fields, on the calls httputil.ReverseProxy makes for one response (any
    number of informational responses, each with the header map of that moment, then the final header; later
    WriteHeader calls are ignored): no Set-Cookie field of the backend's is ever visible to the client, neither on an
